@@ -39,6 +39,7 @@ func main() {
 		{"Locks.lean", extractLocks},
 		{"Math.lean", extractMath},
 		{"Grammar.lean", extractGrammar},
+		{"Lexer.lean", extractLexer},
 		{"Balance.lean", extractBalance},
 		{"Conc.lean", extractConc},
 		{"Listener.lean", extractListener},
